@@ -62,7 +62,8 @@ def enc(o):
         return o
     if isinstance(o, int):
         if abs(o) >= 2 ** 53:
-            return {"$int": str(o)}
+            # (CPython refuses decimal text for ints of more than 4300 digits: those travel in hex)
+            return {"$int": str(o) if abs(o) < 10 ** 4000 else hex(o)}
         return o
     if isinstance(o, float):
         if math.isnan(o):
@@ -115,7 +116,7 @@ def dec(e):
         if "$str" in e:
             return "".join(chr(c) for c in e["$str"])
         if "$int" in e:
-            return int(e["$int"])
+            return int(e["$int"], 0)
         if "$float" in e:
             s = e["$float"]
             if s in ("nan", "inf", "-inf", "-0.0"):
